@@ -21,7 +21,12 @@ ASSUMPTIONS = c06.ASSUMPTIONS + ['queries for which some recorded message is don
 SHRINK_FIELDS = ['intents']
 
 
+GDB_LANES = c06.GDB_LANES
+
+
 def generate(seed, tier, index):
+    if c06.in_gdb_world():
+        return c06.gen_gdb_session(seed, tier, CMD_WEIGHTS, ID, ncmd_range=(2, 8), closing=False)
     if index % 6 == 5:
         # all recorded histories, also ones with messages the tool cannot resolve; listing with `*` / the default filter only
         import random
@@ -48,7 +53,10 @@ def generate(seed, tier, index):
 def execute(sc):
     # side effects of list on filter/selection/breakpoint would show up as C06/C12-model mismatches on later traffic:
     # report those here as C11/side-effect
-    st, res, tr, V0 = c06.run_and_judge(sc, {'C11', 'C06', 'C12'}, ID)
+    if sc['config'].get('world') == 'gdb':
+        st, res, tr, V0, sim = c06.run_and_judge_gdb(sc, {'C11', 'C06', 'C12'}, ID)
+    else:
+        st, res, tr, V0 = c06.run_and_judge(sc, {'C11', 'C06', 'C12'}, ID)
     V = common.Viol()
     V.counters = V0.counters
     for v in V0.list:
